@@ -26,7 +26,7 @@ def one(d):
 
 
 dirs = sorted(glob.glob(os.path.join(HERE, "twins", "*")))
-with ThreadPoolExecutor(max_workers=6) as ex:
+with ThreadPoolExecutor(max_workers=int(os.environ.get("JOBS", "6"))) as ex:
     res = list(ex.map(one, dirs))
 for name, verdict, _ in res:
     print(f"{name:16s} {verdict}")
